@@ -25,6 +25,8 @@ func init() {
 			"C11.R1q queueing function: one send of the parameter on the chan func() field is followed by exactly one receive from the chan error field on every path",
 			"C11.R2 confinement: handler-side interface calls on the data source whose implementations (transitively) write a field that core-loop-reachable code accesses must sit in a request closure, in the start phase (not reachable from the `go` statement that starts the core loop) or after the run-done WaitGroup.Wait",
 			"C11.R2s the receiver of the chan func() calls the received closure synchronously and calls block processing synchronously in the same function",
+			"C11.R4 mortal peer: the hand-off send must be a select arm with an alternative; the active flag is set true only on the success branch of the start call; handlers test the flag before calls that block on per-block goroutines",
+			"C11.R6 lock re-entrancy: no call made while a mutex field is held reaches a Lock of the same mutex of the same object (self-deadlock inside the core loop)",
 			"C11.R5 no deliberate crash: panic/log.Fatal/os.Exit sites in module code reachable (VTA call graph) from request closures and from handlers that queue requests",
 		},
 		Run: runC11,
@@ -57,6 +59,7 @@ func runC11(p *Prog, r *Report) {
 	c.ruleR5()
 	c.ruleR3()
 	c.ruleR4()
+	checkLockReentrancy(p, r, "C11.R6")
 }
 
 // ---- R1 ------------------------------------------------------------------------
@@ -144,8 +147,22 @@ func (c *c11ctx) ruleR1() {
 	// the queueing function itself
 	q := c.rv.Queue
 	c.r.Fn(FuncName(q))
+	armStart := map[ssa.Instruction]bool{} // first instruction of a select arm in which the hand-off fired
+	Instrs(q, func(in ssa.Instruction) {
+		if sel, ok := in.(*ssa.Select); ok {
+			arms := SelectArms(sel)
+			for k, st := range sel.States {
+				if st.Dir == types.SendOnly && chanFieldName(st.Chan) == c.rv.ReqField && arms[k] != nil {
+					armStart[arms[k].Instrs[0]] = true
+				}
+			}
+		}
+	})
 	sends := CountEvents(q, func(in ssa.Instruction) CountSet {
 		if s, ok := in.(*ssa.Send); ok && chanFieldName(s.Chan) == c.rv.ReqField {
+			return C1
+		}
+		if armStart[in] {
 			return C1
 		}
 		return 0
